@@ -206,10 +206,85 @@ func canonicalBatchWalk(content []byte, said *[]string) ([]string, error) {
 	return *said, err
 }
 
+// jEscapedOutsideMetadata reports whether a string token (a key or a value) outside the free-form "metadata" values is
+// spelled with a backslash escape: keys and tickers have exactly one canonical spelling.
+func jEscapedOutsideMetadata(content []byte) bool {
+	type frame struct {
+		obj      bool
+		key      string
+		wantKey  bool
+		metaHere bool // this container IS a metadata value (or lies inside one)
+	}
+	var st []frame
+	inMeta := func() bool { return len(st) > 0 && st[len(st)-1].metaHere }
+	i := 0
+	for i < len(content) {
+		c := content[i]
+		switch {
+		case c == '{' || c == '[':
+			meta := inMeta()
+			if len(st) > 0 && st[len(st)-1].obj && st[len(st)-1].key == "metadata" {
+				meta = true
+			}
+			st = append(st, frame{obj: c == '{', wantKey: c == '{', metaHere: meta})
+			i++
+		case c == '}' || c == ']':
+			if len(st) > 0 {
+				st = st[:len(st)-1]
+			}
+			if len(st) > 0 && st[len(st)-1].obj {
+				st[len(st)-1].wantKey = true
+			}
+			i++
+		case c == ',':
+			if len(st) > 0 && st[len(st)-1].obj {
+				st[len(st)-1].wantKey = true
+			}
+			i++
+		case c == ':':
+			i++
+		case c == '"':
+			j := i + 1
+			esc := false
+			for j < len(content) && content[j] != '"' {
+				if content[j] == '\\' {
+					esc = true
+					j++
+				}
+				j++
+			}
+			end := j
+			if end > len(content) {
+				end = len(content)
+			}
+			raw := string(content[i+1 : end])
+			isKey := len(st) > 0 && st[len(st)-1].obj && st[len(st)-1].wantKey
+			valueOfMeta := !isKey && len(st) > 0 && st[len(st)-1].obj && st[len(st)-1].key == "metadata"
+			// (an address spelled with escapes decodes to the same address and is accepted by the pinned tree; the property's
+			// list of what is not canonical names keys and tickers, not addresses: left out)
+			valueOfAddress := !isKey && len(st) > 0 && st[len(st)-1].obj && st[len(st)-1].key == "address"
+			if esc && !inMeta() && !valueOfMeta && !valueOfAddress {
+				return true
+			}
+			if isKey {
+				st[len(st)-1].key = raw
+				st[len(st)-1].wantKey = false
+			}
+			i = j + 1
+		default:
+			i++
+		}
+	}
+	return false
+}
+
 func canonicalBatchInner(content []byte, said *[]string) error {
 	root, err := jparse(content)
 	if err != nil {
 		return err
+	}
+	if jEscapedOutsideMetadata(content) {
+		return fmt.Errorf("a key or ticker is spelled with an escape sequence")
 	}
 	top, err := root.object("version", "transactions", "metadata")
 	if err != nil {
@@ -447,6 +522,26 @@ func c20Mutations(canon []string, n int) []string {
 	return out
 }
 
+// c20Escapes: every character of every string token of the canonical batches replaced, one at a time, by its \u00XX escape
+// (keys, tickers, addresses, metadata strings alike).
+func c20Escapes(canon []string) []string {
+	var out []string
+	for _, c := range canon {
+		b := []byte(c)
+		inStr := false
+		for i := 0; i < len(b); i++ {
+			if b[i] == '"' {
+				inStr = !inStr
+				continue
+			}
+			if inStr && b[i] != '\\' && b[i] < 0x80 {
+				out = append(out, string(b[:i])+fmt.Sprintf("\\u%04x", b[i])+string(b[i+1:]))
+			}
+		}
+	}
+	return out
+}
+
 func c20Whitespace(canon []string) []string {
 	var out []string
 	for _, c := range canon {
@@ -481,6 +576,7 @@ func runC20(c *core.Ctx, r *core.Result) {
 	}
 	strs = append(strs, c20Mutations(c20Canonical(), nm)...)
 	strs = append(strs, c20Whitespace(c20Canonical())...)
+	strs = append(strs, c20Escapes(c20Canonical()[:nm+1])...)
 	accepted := 0
 	for i, s := range strs {
 		if !c.Mine(i) && c.Only == "" {
